@@ -209,6 +209,8 @@ class Contract:
     source_name: str = ""  # qualified name in the source when it differs from the contract's key (e.g. a property setter)
     decorator: str = ""  # pick the definition carrying this decorator (e.g. "logic_gate_tree.setter")
     external: bool = False  # trusted contract of a function that has no source in the repository: signature = `params` (in order) and `returns`
+    externals: list[str] = field(default_factory=list)  # root names (modules / handles of external libraries) whose attribute / call chains are opaque values
+    ghost_effects: list[dict[str, Any]] = field(default_factory=list)  # trusted effects of external statements on ghost state: {"after": "<statement text prefix>", "modifies": [...], "ensures": {...}}
     static: bool = False  # a @staticmethod: `obj.name(args)` does not pass obj
     is_property: bool = False  # a @property getter: `obj.name` in code and clauses denotes a call of this contract
 
@@ -473,6 +475,18 @@ class Engine:
         for _, a in self.pre.axioms:
             if not _has_quant(a):
                 sv.add(a)
+        # lengths are non-negative (instances of the quantified len_nonneg axiom for the length terms in sight)
+        seen: set[int] = set()
+        stack = [f] + [a for a in st.pc if not _has_quant(a)]
+        while stack:
+            e = stack.pop()
+            if e.get_id() in seen:
+                continue
+            seen.add(e.get_id())
+            if z3.is_app(e):
+                if e.decl().name().startswith("len_") and e.num_args() == 1:
+                    sv.add(e >= 0)
+                stack.extend(e.children())
         sv.add(z3.Not(f))
         return sv.check() == z3.unsat
 
@@ -639,7 +653,29 @@ class Engine:
             self.mode_spec = saved
 
     # ============================================================ expressions
+    def external_root(self, n: ast.expr) -> Optional[str]:
+        c = self.cur_contract
+        if c is None or not c.externals:
+            return None
+        e = n
+        while isinstance(e, (ast.Attribute, ast.Call, ast.Subscript)):
+            e = e.func if isinstance(e, ast.Call) else e.value
+        return e.id if isinstance(e, ast.Name) and e.id in c.externals else None
+
     def expr(self, n: ast.expr, st: State) -> V:
+        if not self.mode_spec and isinstance(n, (ast.Attribute, ast.Call, ast.Name)) and self.external_root(n) is not None:
+            # an expression that only talks to an external library object: an opaque value; its arguments are still evaluated
+            # (they may raise), its effects on the verified state are none beyond the declared ghost effects
+            if isinstance(n, ast.Call):
+                for a in n.args:
+                    if self.external_root(a) is None:
+                        try:
+                            self.expr(a, st)
+                        except Unsupported:
+                            pass
+            self.trusted_used.add(f"expressions rooted at {self.external_root(n)!r} are calls into an external library: opaque values, no effect on the verified state "
+                                  "beyond the declared ghost effects")
+            return self.fresh("ext", ANY)
         m = getattr(self, "e_" + type(n).__name__, None)
         if m is None:
             raise Unsupported(f"expression {type(n).__name__}", n)
